@@ -435,11 +435,11 @@ Proof.
       word_tok; [|exact Hl]. apply (scan_word 78 [97; 78] rest); [reflexivity|reflexivity|exact Han].
     + change (B"-Inf") with ([45] ++ [73; 110; 102]). rewrite <- app_assoc.
       change ([t_minus; ptk token_IDENT (B"Inf")] ++ toks) with (t_minus :: ptk token_IDENT [73; 110; 102] :: toks).
-      word_tok; [apply scan_minus; cbn; lia|].
+      word_tok; try (apply scan_minus; cbn; lia).
       word_tok; [|exact Hl]. apply (scan_word 73 [110; 102] rest); [reflexivity|reflexivity|exact Han].
     + change (B"+Inf") with ([43] ++ [73; 110; 102]). rewrite <- app_assoc.
       change ([t_plus; ptk token_IDENT (B"Inf")] ++ toks) with (t_plus :: ptk token_IDENT [73; 110; 102] :: toks).
-      word_tok; [apply scan_plus; cbn; lia|].
+      word_tok; try (apply scan_plus; cbn; lia).
       word_tok; [|exact Hl]. apply (scan_word 73 [110; 102] rest); [reflexivity|reflexivity|exact Han].
   - (* booleans *)
     destruct (closer_facts _ Hc) as [_ [_ [_ [_ [_ [_ [Han _]]]]]]].
@@ -460,7 +460,7 @@ Proof.
   - (* arrays *)
     cbn [inspect vtoks]. rewrite <- !app_assoc. cbn [app].
     change (91 :: join_with [44] (map inspect l) ++ 93 :: rest) with ([91] ++ (join_with [44] (map inspect l) ++ 93 :: rest)).
-    apply lexes_cons; try reflexivity; [discriminate|].
+    apply lexes_cons; try reflexivity; [discriminate|]. rewrite <- app_assoc.
     apply lex_join_gen; [| reflexivity |].
     + clear -H D. induction H as [|x r Hx Hr IH]; cbn [map]; [constructor|].
       cbn [forallb] in D. apply andb_true_iff in D. destruct D as [D1 D2].
@@ -469,7 +469,7 @@ Proof.
   - (* maps *)
     rewrite inspect_map_unfold, vtoks_map_unfold. rewrite <- !app_assoc. cbn [app].
     change (123 :: join_with [44] (map pair_text l) ++ 125 :: rest) with ([123] ++ (join_with [44] (map pair_text l) ++ 125 :: rest)).
-    apply lexes_cons; try reflexivity; [discriminate|].
+    apply lexes_cons; try reflexivity; [discriminate|]. rewrite <- app_assoc.
     apply lex_join_gen; [| reflexivity |].
     + clear -H D. induction H as [|[k x] r Hx Hr IH]; cbn [map]; [constructor|].
       apply andb_true_iff in D. destruct D as [D12 D3]. apply andb_true_iff in D12. destruct D12 as [D1 D2].
@@ -482,4 +482,31 @@ Proof.
       * apply scan_colon. apply (first_ok_all x D2).
       * apply (Hv D2); assumption.
     + change (125 :: rest) with ([125] ++ rest). apply lexes_cons; try reflexivity; [discriminate|exact Hl].
+Qed.
+
+(* ================================================================ the whole saved line *)
+Lemma good_name_shape k : good_name k = true ->
+  exists c r, k = c :: r /\ isLetter c = true /\ forallb IsAlphaNum r = true /\ lookup_ident k = token_IDENT.
+Proof.
+  destruct k as [|c r]; cbn [good_name]; [discriminate|]. intro H.
+  apply andb_true_iff in H. destruct H as [H12 H3]. apply andb_true_iff in H12. destruct H12 as [H1 H2].
+  exists c, r. repeat split; auto. apply Z.eqb_eq. exact H3.
+Qed.
+
+Theorem lex_line k v : good_name k = true -> lex_dom v = true ->
+  front_tokens false (save_line k v) = ptk token_IDENT k :: t_assign :: vtoks v ++ [eof_ptok].
+Proof.
+  intros Hk Hv. destruct (good_name_shape k Hk) as [c [r [-> [Hc [Hr Hid]]]]].
+  unfold front_tokens, lex_all, save_line.
+  assert (L : lexes_as ((c :: r) ++ [61] ++ inspect v) (ptk token_IDENT (c :: r) :: t_assign :: vtoks v)).
+  { rewrite <- Hid at 1.
+    apply lexes_cons; try reflexivity; [discriminate|cbn [hd0]; unfold isLetter, isWhiteSpace in *; lia| | | |].
+    - rewrite scan_word; [reflexivity|exact Hc|exact Hr|reflexivity].
+    - rewrite Hid. reflexivity.
+    - rewrite Hid. reflexivity.
+    - rewrite <- (app_nil_r (inspect v)). rewrite <- (app_nil_r (vtoks v)) at 1.
+      apply lexes_cons; try reflexivity; [discriminate| |].
+      + apply scan_assign; apply (first_ok_all v Hv).
+      + apply (lex_value v Hv); [reflexivity|apply lexes_nil]. }
+  rewrite (L _ 0%nat); [reflexivity|reflexivity|lia].
 Qed.
